@@ -27,7 +27,7 @@ RULE = ("cases (shared by both stages): 6 encoders (string, strings, der and the
         "ecdsa_sign_det lines (the nonce list of the *_det lines is the real rfc6979.generate_k for retry_gen = 0..; an entropy "
         "nonce is the real util.randrange on the same entropy stream) and the ecdsa_verify_* line of every signature returned; "
         "full cross product on toy and small named curves, every entry point and every encoder at least once on each big curve.")
-RULE = RULE + E.COUNT_RULE
+RULE = RULE + E.CALL_RULE + E.COUNT_RULE
 ASSUMPTIONS = ["digests are non-empty",
                "signing may legitimately end without a signature: RSZeroError for an explicit/entropy nonce with r = 0 or s = 0 (toy "
                "curves), BadDigestError when truncation is disabled and the digest is longer than the order; then nothing is claimed",
@@ -86,7 +86,7 @@ def do_sign(case, sk=None):
     cv, cp, t = E.resolve_curve(case["curve"])
     n = cp[3]
     H = E.HASHES[case["hash"]]
-    sk = sk or E.get_key(case["curve"], case["d"])
+    sk = sk or E.get_key(case["curve"], case["d"], case["hash"])
     enc = E.encoder(case["enc"])
     entry = case["entry"]
     k = case.get("k")
@@ -94,6 +94,24 @@ def do_sign(case, sk=None):
     ee = bytes.fromhex(case.get("extra_entropy", ""))
     pos = case.get("call") == "positional"
     at = case.get("allow_truncate")
+    if case.get("call") == "defaults":
+        # every optional argument except the nonce source omitted: hashfunc = the key's default_hashfunc (the key is built with the
+        # case's hash), sigencode = sigencode_string, allow_truncate = the documented default (E.DEFAULT_ALLOW, used by the oracle)
+        kw = {}
+        if ent is not None:
+            kw["entropy"] = ent
+        if k is not None:
+            kw["k"] = k
+        if entry == "sign":
+            return sk.sign(bytes.fromhex(case["data"]), **kw)
+        if entry == "sign_digest":
+            return sk.sign_digest(E.digest_obj(case), **kw)
+        if entry == "sign_deterministic":
+            return sk.sign_deterministic(bytes.fromhex(case["data"]))
+        if entry == "sign_digest_deterministic":
+            return sk.sign_digest_deterministic(E.digest_obj(case))
+        r, s = sk.sign_number(case["number"], **kw)
+        return enc(r, s, n)
     if entry == "sign":
         # sign(self, data, entropy=None, hashfunc=None, sigencode=sigencode_string, k=None, allow_truncate=True)
         if pos:
@@ -125,11 +143,15 @@ def do_verify(case, sig, vk=None):
     cv, cp, t = E.resolve_curve(case["curve"])
     n = cp[3]
     H = E.HASHES[case["hash"]]
-    vk = vk or E.get_key(case["curve"], case["d"]).verifying_key
+    vk = vk or E.get_key(case["curve"], case["d"], case["hash"]).verifying_key
     dec = E.decoder(case["enc"])
     entry = case["entry"]
     pos = case.get("call") == "positional"
     sigo = E.wrap_sig(sig, case.get("sigcontainer"))
+    if case.get("call") == "defaults" and entry != "sign_number":
+        if entry in ("sign", "sign_deterministic"):
+            return vk.verify(sigo, bytes.fromhex(case["data"]))
+        return vk.verify_digest(sigo, E.digest_obj(case))
     if entry in ("sign", "sign_deterministic"):
         allow = True if entry == "sign_deterministic" else case["allow_truncate"]
         # verify(self, signature, data, hashfunc=None, sigdecode=sigdecode_string, allow_truncate=True)
@@ -157,7 +179,7 @@ def run_case(case):
     """None if the property holds, else {"observed", "expected"}"""
     cv, cp, t = E.resolve_curve(case["curve"])
     H = E.HASHES[case["hash"]]
-    sk = E.get_key(case["curve"], case["d"])
+    sk = E.get_key(case["curve"], case["d"], case["hash"])
     vk = sk.verifying_key
     rl = case.get("reload")
     if rl:
@@ -329,6 +351,13 @@ def curve_cases(rng, spec, reps, level):
                 # the same case called POSITIONALLY (documented parameter order), and with the signature handed over in a
                 # non-bytes container (search only)
                 if var == 0:
+                    # ... with every optional argument omitted (documented defaults; the string codec)
+                    cd = dict(case, call="defaults", enc="string")
+                    cd.pop("extra_entropy", None)
+                    if entry in E.DEFAULT_ALLOW:
+                        cd["allow_truncate"] = E.DEFAULT_ALLOW[entry]
+                    out.append(("default arguments " + entry + (" digest>order" if case_digest(cd) is not None and len(case_digest(cd)) > cv.baselen
+                                                               else " digest<=order"), cd, False))
                     out.append(("positional call " + " ".join(tagbits[:2]), dict(case, call="positional"), False))
                     if rng.random() < 0.5:
                         kind = rng.choice(E.CONTAINERS)
